@@ -275,7 +275,8 @@ Section Reader.
       | None =>
         do m <- members fs s pos pos [] [];
         let size := snd m - pos in
-        Ok (VUnion (sread s pos size) (fst m), pos + zlen (sread s pos size))
+        do buf <- sread_exact s pos size;          (* the re-read of the union's bytes; EOFError when short *)
+        Ok (VUnion buf (fst m), pos + size)
       end
     end.
 
